@@ -17,8 +17,8 @@ CHECKS = {
          "Exploration of a probabilistic claim: every run is reproducible from (case, sampling seed); an exceedance is a violation only if it persists in a majority of 21 independent sampling seeds; aggregate convergence is decided on medians over a fixed generated collection.",
          "Trusted: best-response oracle; decision rule error probabilities stated in DESIGN.md 3/C04.", "3/C04"),
  "C05": ("property-based testing / robustness fuzzing over (game, method, parameter tuple incl. +-inf, budget, threshold, thread count): oracle = no panic, documented errors only, returned profile satisfies the validity predicate, bounds well-formed",
-         "Exploration: totality and well-formedness are validity predicates over the whole configuration space the constructor accepts; panics are caught and reported, hangs are reported as inconclusive by a watchdog.",
-         "Trusted: the validity predicate (shared with C13); hang detection is bounded-time observation.", "3/C05"),
+         "Exploration: totality and well-formedness are validity predicates over the whole configuration space the constructor accepts (exponents up to +-1000 and +-inf, budgets from 0 to u64::MAX, thread counts up to usize::MAX); panics are caught and reported; a case that exceeds the 60 s watchdog is replayed in four fresh processes and reported as a violation if one of them hangs as well, otherwise as inconclusive.",
+         "Trusted: the validity predicate (shared with C13); hang detection is bounded-time observation (60 s + 120 s on cases that take milliseconds).", "3/C05"),
  "C06": ("differential property-based testing: k-thread versus 1-thread Full solve on generated wide games, repeated runs under injected yields and oversubscription, comparison gated by a reference-model conditioning guard",
          "Exploration: the deterministic part of the parallel algorithm (how a traversal is cut into tasks, what state survives between iterations) is decided on every generated case; interleaving-dependent faults are sought statistically (repeats, yields, 16 concurrent pools).",
          "Trusted: single-thread result as the reference; the harness does not own rayon's scheduler.", "3/C06"),
@@ -35,7 +35,7 @@ CHECKS = {
          "Exploration: (a) exact interval semantics of the sampler for generated weights and variates; (b) every recorded draw must be one the reference model expects, with the declared weights; (c) seeded distribution tests with alarm threshold p < 1e-10.",
          "Trusted: the hook reports the weights the sampler was constructed with; reference model as in C08.", "3/C10"),
  "C11": ("property-based testing with violation operators and label soup: an independent contract validator (MustAccept / MustReject(rules) / DontCare) as oracle; accepted trees are zipped against the harness's collapsed tree, evaluated and solved",
-         "Exploration of the accept/reject boundary: valid games, valid games with 1-2 injected violations at generated places, and random label soup; both directions are checked (accepted iff valid; error names a violated rule).",
+         "Exploration of the accept/reject boundary: valid games, valid games with 1-2 injected violations at generated places, random label soup, very wide nodes; both directions are checked (accepted iff valid; error names a violated rule); every tree is presented a second time through child iterators with inexact size hints and must be judged identically.",
          "Trusted: the validator's reading of the documented contract; stated don't-care zones.", "3/C11"),
  "C12": ("metamorphic property-based testing: a generated game versus a transformed presentation (renaming, chance rescaling, degenerate-node insertion/removal, payoff scaling/shift, player swap); evaluations and Full solves compared through the mapping",
          "Exploration of metamorphic relations: evaluation relations are continuous and compared within 1e-9 relative; solver relations within 1e-12 where no rounding changes, else 1e-6 under the conditioning guard.",
@@ -47,13 +47,13 @@ CHECKS = {
          "Exploration: Ok iff the model says valid, probabilities = weight/total within 2 ulp, error kind in the model's set of violated rules, both import paths identical.",
          "Trusted: the model's reading of the documented rules (last write wins).", "3/C14"),
  "C15": ("property-based testing of the production binary: the harness generates an abstract constant-sum game, serialises it as JSON DSL or Gambit .efg with all presentation freedoms, runs the program and independently evaluates the printed strategies",
-         "Exploration over files and option combinations; the oracle is an independent evaluation of the printed strategies on the abstract game with each player's own payoffs.",
+         "Exploration over files and option combinations (both encodings with all presentation freedoms, -o onto new and onto existing longer files); the oracle is an independent evaluation of the printed strategies on the abstract game with each player's own payoffs. Known finding F17 (JSON nesting limit) is reported by this check.",
          "Trusted: the harness's serialisers (the ground truth is the abstract game, not a second parser).", "3/C15"),
  "C16": ("differential property-based testing of the production binary against the library called directly with the parameters the options denote, across input routes/formats/destinations and JSON-versus-Gambit encodings (dyadic numbers, so arithmetic is exact)",
          "Exploration over option values and routes: printed strategies must equal the library's result for the denoted parameters within 1e-9; clip decisions are checked against an independent regret evaluation.",
          "Trusted: the harness's reading of the help text (option -> parameter mapping written out as a literal table).", "3/C16"),
  "C17": ("property-based fuzzing near valid files: generated valid JSON/Gambit files plus one semantic corruption with a known outcome; oracle = non-zero exit, no result object, diagnostic of the expected category; accepted controls must pass C15's predicate",
-         "Exploration over corruption operators x positions x formats x routes; only corruptions whose invalidity follows from the README/DSL are generated, with must-accept controls on the tolerance boundary.",
+         "Exploration over corruption operators x positions x formats x routes; only corruptions whose invalidity follows from the README/DSL are generated, with must-accept controls on the tolerance boundary; payoff edits of any outcome (leaf, interior, shared by number) get their verdict from the harness's own evaluation of the file's structure by the documented constant-sum rule.",
          "Trusted: category keywords are loose alternatives per documented category.", "3/C17"),
  "C18": ("model-based property-based testing: per-infoset truncation model over generated profiles and thresholds placed at, just below and just above every probability; idempotence and validity checked",
          "Exploration: support, proportional rescaling (4 ulp), validity when nothing exceeds the threshold, no change below the smallest positive probability, truncating twice equals once.",
